@@ -408,6 +408,11 @@ static struct rnode *rnode_atom(char **pat)
 		} else {
 			rnode->maxcnt = rnode->mincnt;
 		}
+		if ((*pat)[0] != '}') {		/* unterminated {} */
+			rnode_free(rnode);
+			*pat = beg;
+			return NULL;
+		}
 		++*pat;
 		if (rnode->mincnt > NREPS || rnode->maxcnt > NREPS ||
 				(rnode->maxcnt >= 0 && rnode->maxcnt < rnode->mincnt)) {
